@@ -19,7 +19,10 @@ from vlib.mirsym.engine import load_program, new_interp
 from vlib.mirsym.values import *  # noqa
 from vlib.mirsym.models_core import is_upper, ascii_upper, ascii_lower, seq_eq, unicode_map
 
-RULES = ["lowercase", "UPPERCASE", "PascalCase", "camelCase", "snake_case", "SCREAMING_SNAKE_CASE", "kebab-case", "SCREAMING-KEBAB-CASE", "Title Case"]
+KNOWN_RULES = ["lowercase", "UPPERCASE", "PascalCase", "camelCase", "snake_case", "SCREAMING_SNAKE_CASE", "kebab-case", "SCREAMING-KEBAB-CASE"]
+# rule strings serde_derive does not know (near misses of the real ones): names must stay unchanged
+UNKNOWN_RULES = ["Title Case", "SCREAMING_KEBAB_CASE", "SCREAMING-SNAKE-CASE", "SCREAMING_KEBAB-CASE", "snake-case", "kebab_case", "Camelcase", "camelcase", "UPPER_CASE", "screaming_snake_case", "Snake_Case", "lower", ""]
+RULES = KNOWN_RULES + UNKNOWN_RULES
 CLASSES = {"l": (97, 122), "u": (65, 90), "d": (48, 57), "_": (95, 95), "e": (0xE9, 0xE9), "E": (0xC9, 0xC9), "s": (0xDF, 0xDF), "t": (0x1C5, 0x1C5), "c": (0x4E2D, 0x4E2D)}
 ASCII = "lud_"
 NONASCII = "eEstc"
@@ -172,7 +175,7 @@ def run_case(case, tier):
             ts_kind, ts = "panic", p.msg
         sd_kind, sd = "ok", None
         try:
-            if rule == "Title Case":
+            if rule in UNKNOWN_RULES:
                 sd = list(ident)       # unknown rule: serde_derive rejects it at compile time; the property says "unchanged"
             else:
                 sd = (serde_field if pos == "field" else serde_variant)(I, rule, ident)
@@ -248,7 +251,7 @@ def native(rep, rule, pos, ident):
             return None, None, "unexpected parse result %s" % json.dumps(r)[:300]
     else:
         return None, None, "source did not parse: %s" % json.dumps(r)[:300]
-    if rule == "Title Case":
+    if rule in UNKNOWN_RULES:
         sd = ident
     else:
         s = rep.ask({"op": "serde_case", "rule": rule, "pos": pos, "s": ident})
@@ -284,7 +287,7 @@ def native_raw(rep, rule, pos, ident):
     if ts is None:
         return None, None, "raw source did not parse"
     if ref is None:
-        if rule == "Title Case":
+        if rule in UNKNOWN_RULES:
             ref = ident
         else:
             q = rep.ask({"op": "serde_case", "rule": rule, "pos": base, "s": ident})
@@ -318,7 +321,8 @@ def run(rep_, tier, only=None):
     _PROG = load_program(("core",))
     native_rep = Replayer()
     rep_.validated += selftest(native_rep)
-    cases = [(r, p, w) for r in RULES for p in ("field", "variant") for w in words(tier)]
+    cases = [(r, p, w) for r in KNOWN_RULES + UNKNOWN_RULES[:1] for p in ("field", "variant") for w in words(tier)]
+    cases += [(r, p, w) for r in UNKNOWN_RULES[1:] for p in ("field", "variant") for w in words(tier) if len(w) <= 3 and all(c in ASCII for c in w)]
     raw_words = [w for w in words(tier) if len(w) <= (3 if tier == "quick" else 4) and all(c in ASCII for c in w) and w[0] in "lu"]
     cases += [(r, p, w) for r in RULES for p in ("raw_field", "raw_variant") for w in raw_words]
     if only:
